@@ -837,7 +837,8 @@ func (g *gen) htmlDoc() string {
 
 var aligns = []string{"left", "right", "center", "middle", "top", "bottom", "justify", "", "x", "LEFT", "char", "baseline", "absmiddle", "all", "both"}
 var listTypes = []string{"1", "a", "A", "i", "I", "disc", "circle", "square", "", "x", "none"}
-var dates = []string{"2011-04-21T23:00:00Z", "2011-04-21", "2011", "2011-04", "2011-04-21T23:00Z", "2011-04-21T23:00:00+01:00", "2011-04-21T23:00:00-23:59", "2011-04-21T23", "2011-13-41", "0000-00-00", "2011-04-21T25:61:61Z", "", "x", "99999-01-01", "2011-04-21T23:00:00.123Z", " 2011-04-21 ", "2011-04-21T23:00:00+24:00", "2011-02-30T00:00:00Z", "2011-04-21T23:00:00z"}
+var dates = []string{"2011-04-21T23:00:00Z", "2011-04-21", "2011", "2011-04", "2011-04-21T23:00Z", "2011-04-21T23:00:00+01:00", "2011-04-21T23:00:00-23:59", "2011-04-21T23", "2011-13-41", "0000-00-00", "2011-04-21T25:61:61Z", "", "x", "99999-01-01", "2011-04-21T23:00:00.123Z", " 2011-04-21 ", "2011-04-21T23:00:00+24:00", "2011-02-30T00:00:00Z", "2011-04-21T23:00:00z",
+	"99999999999999999999", "99999999999999999999-01-01", "2011-99999999999999999999", "2011-04-21T23:00:00.99999999999999999999Z", "2011-04-21T23:00:00+99999999999999999999:00", "0000000000000000000002011-04-21"}
 
 func escAttr(s string) string {
 	return strings.NewReplacer("&", "&amp;", "\"", "&quot;", "<", "&lt;").Replace(s)
@@ -881,6 +882,9 @@ func (g *gen) generate(n int) []job {
 	for _, s := range atPreludes {
 		add("media", s, 0, "pool")
 	}
+	for _, s := range dates {
+		add("w3cdate", s, 0, "pool")
+	}
 	for _, s := range payloads {
 		add("unquote", s, 0, "pool")
 		add("unescape", s, 0, "pool")
@@ -892,6 +896,12 @@ func (g *gen) generate(n int) []job {
 	n += len(edge)
 	for len(out) < n {
 		switch k := r.Intn(100); {
+		case k < 1: // document metadata: W3C dates, keywords, attachments
+			if r.Bool() {
+				add("metadata", g.genMetaDoc(), 0)
+			} else {
+				add("w3cdate", genDate(r), 0)
+			}
 		case k < 40: // property validators and expanders
 			d, tags := g.decl(g.props)
 			add("decl", d, 0, tags...)
